@@ -374,7 +374,7 @@ theorem setItem_create_names (cls : Cls) (kvs : List (Str × Val)) (q : Pos) (kc
   obtain ⟨root', par, ni, hadd, hst⟩ := add_store_chain (.dict cls kvs) q kcls nkvs n ns v t' hget hn hl hns hset
   unfold setItem
   simp only [qmark_render, Bool.false_and, Bool.false_eq_true, if_false, hasPathChar_render, if_true, htok, hfind,
-    List.nil_append, List.isEmpty_cons, Bool.not_false, hadd, hst]
+    hiddenPlace_mk_at, List.nil_append, List.isEmpty_cons, Bool.not_false, hadd, hst]
 
 /-! ### tokenisation across a '/' -/
 
@@ -797,11 +797,12 @@ theorem setItem_of_find {cls : Cls} {kvs : List (Str × Val)} {xp : Str} {toks n
     {v t' : Val} {fuel : Nat}
     (hq : startsWith xp ['?'] = false) (hpc : hasPathChar xp = true) (htok : tokenize xp = toks)
     (hfind : findD fuel (.dict cls kvs) [] false true toks (.at []) true slash = .ok (root0, r))
-    (hnf : r.notFound = some nf) (hne : nf ≠ []) (hadd : AddStores root0 r.parent r.nameIdx nf v t') :
+    (hnf : r.notFound = some nf) (hne : nf ≠ []) (hadd : AddStores root0 r.parent r.nameIdx nf v t')
+    (hw : isWrap r.parent = false := by rfl) :
     setItem fuel (.dict cls kvs) xp v = (t', .ok ()) := by
   obtain ⟨root', par', ni', ha, hst⟩ := hadd
   unfold setItem
-  simp only [hq, Bool.false_and, Bool.false_eq_true, if_false, hpc, if_true, htok, hfind, hnf,
+  simp only [hq, Bool.false_and, Bool.false_eq_true, if_false, hpc, if_true, htok, hfind, hiddenPlace_notWrap fuel root0 r hw, hnf,
     isEmpty_false_of_ne hne, Bool.not_false, ha, hst]
 
 /-- `[new()] / tail` entered on a list: exactly one element is appended -/
